@@ -1,8 +1,9 @@
 CONFIG = {
     "id": "C05",
-    "coq_targets": ["Props/C05.v", "Model/ModifierCheck.v"],
+    "coq_targets": ["Model/StackingExpected.v", "Gen/StackingTable.v", "Model/StackingInterp.v", "Proofs/StackingTableProofs.v",
+                    "Props/C05.v", "Model/ModifierCheck.v"],
     "prop_files": ["Props/C05.v"],
-    "gen": [],
+    "gen": ["StackingTable"],
     "components": [{
         "name": "modifier", "modules": ["Model.Modifier", "Model.ModifierCheck"],
         "check": "check_case", "monitor": "monitor_case", "model_out": "model_out",
@@ -25,6 +26,26 @@ CONFIG = {
             "listener invocations and Modifier{Added,Resisted,Removed,Dispelled,ExtendedDuration,ExtendedCount} events "
             "with all fields (floats bit-exact). A case is non-trivial when distinct as an input term.",
     "trusted": [
+        "stacking / removal / expiry logic, TRANSLATED from the Go source on every run (go2coq StackingTable -> Gen/StackingTable.v; "
+        "step types Model/SimSkeleton.v; pinned table Model/StackingExpected.v; interpreter Model/StackingInterp.v; "
+        "Proofs/StackingTableProofs.v; theorem C05_stacking_is_the_source): EVERY statement of AddModifier, attemptResist, unique, "
+        "replaceBySource, replace, multiple, refresh, prolong, merge, stackCount (add.go), RemoveModifier, RemoveModifierFromSource, "
+        "RemoveSelf, DispelStatus (remove.go), Tick, modifierPhaseEnd (tick.go) as an ordered step with lookup guards, count / "
+        "duration updates, early returns and emit calls as normalised source text, plus the values of the stacking / tick-moment / "
+        "phase constants; no statement is skipped, a statement or a nested effectful call outside the recognised shapes makes the "
+        "translator fail closed. PINNED (table = hand-written expected table, reflexivity): all 16 functions. INTERPRETED (run over "
+        "the model's own instance record / state and proved equal to the model for all inputs): stackCount = Modifier.stack_count; "
+        "the `switch config.Stacking` of AddModifier with the helper it selects (unique, replaceBySource, replace, multiple, "
+        "refresh, prolong, merge: lookup predicate, count and duration updates, surviving instance, emitExtendDuration, the "
+        "newInstance flag) = Modifier.stack for every world, listener runner, state, unit, behaviour and incoming instance",
+        "stacking logic, still HAND-WRITTEN / trusted under the translator tie: the denotation tables of Model/StackingInterp.v (which integer / "
+        "predicate / state update a text stands for: `mod.name == instance.name` -> by_name, `.. && mod.source == instance.source` -> "
+        "by_name_src, `mod.duration = / += instance.duration` -> upd .. w_dur, `mgr.targets[target][i] = instance` -> replace_first, "
+        "mgr.emitExtendDuration -> emit_extdur, the append -> Modifier.append) and its reading of `range .. { if guard { .. return } }` "
+        "as find_first; PINNED ONLY (their meaning as Modifier.add / attempt_resist / remove_by / remove_self / dispel / tick / "
+        "phase_end, named per function in Model/StackingExpected.v, stays tied by correspondence): attemptResist, AddModifier around "
+        "the switch, RemoveModifier, RemoveModifierFromSource, RemoveSelf, DispelStatus, Tick, modifierPhaseEnd; NOT translated: "
+        "dispelIDs, newInstance, itr and the emit helpers",
         "stack counts are modelled as integers (the harness uses integral float64 counts below 2^53, for which "
         "float64 addition and comparison are exact; a non-integral count observed on the implementation is a mismatch)",
         "math/rand is modelled (Float64, int31n, Shuffle transcribed from Go 1.23 over a splitmix64 source supplied by the "
@@ -41,7 +62,9 @@ CONFIG = {
         "level_text": "Kernel-checked theorems over an executable Gallina model of the modifier manager (attached lists "
                       "as tag lists into an instance heap, listener scripts as data, any nesting depth), tied to the Go "
                       "code by exact correspondence of attached lists and event streams after every operation.",
-        "level_note": "Coq kernel; hand-written model Model/Modifier.v; correspondence harness over the real "
+        "level_note": "go2coq StackingTable translator (add.go, remove.go, tick.go -> step table) + pinned table "
+                      "Model/StackingExpected.v + interpreter Model/StackingInterp.v (stackCount = Modifier.stack_count, switch + helpers = Modifier.stack); "
+                      "Coq kernel; hand-written model Model/Modifier.v; correspondence harness over the real "
                       "modifier.NewManager; counts restricted to integers; math/rand transcribed.",
         "technique": "Coq proof (transition invariant with counting, induction over listener depth and op lists) + "
                      "model/implementation correspondence + trace monitor",
